@@ -196,6 +196,7 @@ struct Lagrange {
 // ------------------------------------------------------------------------------------------------------
 struct SplitOut {
     enum Kind { Ok, InvalidArg, OtherExc, UnknownExc, Timeout, Runaway, Crashed, Starved } kind = Ok;
+    double cpu = 0;   // CPU seconds the forked child was seen to have used
     std::vector<ShamirShare> shares;
     std::string what;
     double secs = 0;
@@ -264,7 +265,7 @@ constexpr std::size_t kRssCapMb = 1536;      // a legitimate result is 255 x 33 
 bool g_seen_split_timeout = false;
 
 // Runs split in a forked child so that a non-terminating / memory-eating split is observed, not suffered.
-SplitOut split_forked(const Secret& s, unsigned t, unsigned n) {
+SplitOut split_forked(const Secret& s, unsigned t, unsigned n, double limit_override = 0) {
     SplitOut o;
     int fds[2];
     if (pipe(fds) != 0) throw CaseFailure{"C10:harness-error", "pipe() failed"};
@@ -310,7 +311,7 @@ SplitOut split_forked(const Secret& s, unsigned t, unsigned n) {
         _exit(0);
     }
     close(fds[1]);
-    const double limit = g_seen_split_timeout ? kSplitTimeoutAgain : kSplitTimeoutFirst;
+    const double limit = limit_override > 0 ? limit_override : (g_seen_split_timeout ? kSplitTimeoutAgain : kSplitTimeoutFirst);
     std::vector<std::uint8_t> got;
     bool eof = false;
     while (!eof) {
@@ -328,6 +329,7 @@ SplitOut split_forked(const Secret& s, unsigned t, unsigned n) {
         o.peak_rss_mb = std::max(o.peak_rss_mb, rss);
         if (rss > kRssCapMb) { o.kind = SplitOut::Runaway; break; }
         const double cpu = cpu_secs(pid);
+        o.cpu = std::max(o.cpu, cpu);
         if (cpu > limit) { o.kind = SplitOut::Timeout; o.secs = cpu; break; }
         if (o.secs > kSplitWallCap) { o.kind = SplitOut::Starved; break; }
     }
@@ -626,6 +628,23 @@ void run_case(Ctx& c) {
 
     // ---- split -------------------------------------------------------------------------------------
     SplitOut so = n == 255 ? split_forked(secret, th, n) : split_direct(secret, th, n);
+    if (n == 255 && so.kind == SplitOut::Timeout) {
+        // Is it the split or the forked child as such?  In a long-lived sanitizer process a forked child can burn seconds
+        // of CPU on its own (copy-on-write faults, allocator quarantine).  A reference child that splits into 254 shares
+        // (which cannot reach the n = 255 path) calibrates the budget; a split that really does not terminate exceeds any budget.
+        Secret ref_secret{};
+        SplitOut ref = split_forked(ref_secret, 2, 254, 120.0);
+        if (ref.kind == SplitOut::Ok && ref.cpu > 0.05) {
+            c.label("forked_child_slow_in_this_process");
+            SplitOut again = split_forked(secret, th, n, 50.0 * ref.cpu + 2.0);
+            if (again.kind != SplitOut::Timeout) c.label("split_timeout_was_the_environment");
+            so = again;
+        } else if (ref.kind != SplitOut::Ok) {
+            c.label("reference_child_failed_inconclusive");
+            vclock::rng_clear_queue();
+            return;
+        }
+    }
     vclock::rng_clear_queue();
     if (n == 255) c.label("split_in_child");
     switch (so.kind) {
